@@ -17,6 +17,7 @@ fn main() {
             "C02" => c02::replay(body),
             "C18" => c18::replay(body),
             "C15" => c15::replay(body),
+            "C14" => c14::replay(body),
             _ => { eprintln!("no replay for {prop}"); false }
         };
         println!("reproduced={reproduced}");
@@ -41,6 +42,7 @@ fn main() {
         "C02" => c02::main(tier, seed, outdir),
         "C18" => c18::main(tier, seed, outdir),
         "C15" => c15::main(tier, seed, outdir),
+        "C14" => c14::main(tier, seed, outdir),
         _ => { eprintln!("unknown property {prop}"); std::process::exit(2); }
     }
 }
